@@ -187,6 +187,7 @@ R_LOC = [('R11.adv', r'memunit_advance\(x\(\),\s*', 'MEMUNIT_ADVANCE(&self->a, '
          ('R11.adv_ref', r'memunit_advanced_ref\(x\(\),\s*', 'MEMUNIT_ADVANCED(self->a, ', False),
          ('R11.advd', r'memunit_advanced\(x\(\),\s*', 'MEMUNIT_ADVANCED(self->a, ', False),
          ('R11.dist', r'memunit_distance\(x\(\), p2\.x\(\)\)', 'MEMUNIT_DISTANCE(self->a, p2->a)', False),
+         ('R11.xdiff', r'\(p2\.x\(\)\s*-\s*x\(\)\)', 'X_ITER_DIFF(p2->a, self->a, PIXEL_SIZE(self))', False),   # x-iterator difference: memunit distance / x step (C++ truncating division)
          ('R11.row', r'\brow_size\(\)', 'ROW_SIZE(self)', False), ('R11.pix', r'\bpixel_size\(\)', 'PIXEL_SIZE(self)', False),
          ('R11.off', r'\boffset\(', 'loc_offset(self, ', False),
          ('R14.assert', r'BOOST_ASSERT\(', 'PRECONDITION(', False),
@@ -222,6 +223,7 @@ typedef int64_t x_iterator; typedef int64_t reference;     /* an x-iterator / a 
 #define SMAX ((int64_t)1 << 40)
 #define CMAX ((int64_t)1 << 20)
 #define LOCOK(l) (-SMAX <= (l).a && (l).a <= SMAX && -SMAX <= (l).sx && (l).sx <= SMAX && -SMAX <= (l).sy && (l).sy <= SMAX)
+#define X_ITER_DIFF(b, a, step) (((b) - (a)) / (step))
 ptrdiff_t ROW_SIZE(const gloc_t* self) @@loc_row_size@@
 ptrdiff_t PIXEL_SIZE(const gloc_t* self) @@loc_pixel_size@@
 ptrdiff_t loc_offset(const gloc_t* self, x_coord_t x, y_coord_t y) @@loc_offset@@
@@ -370,6 +372,12 @@ int main(int argc, char** argv){ vr::parse(argc, argv);
   if (loc.y_distance_to(v.xy_at(60 + dx, 60 + dy), dx) != dy) REPRODUCED("y_distance_to wrong");
   if (v.xy_at(0,0).is_1d_traversable(W)) REPRODUCED("padded view reported 1-D traversable");
   gray8_view_t t = interleaved_view(W, H, (gray8_pixel_t*)buf.data(), W); if (!t.xy_at(0,0).is_1d_traversable(W)) REPRODUCED("contiguous view reported not 1-D traversable");
+  // y_distance_to on views whose x step is not the pixel size (transposed / rotated / subsampled): every pair of positions of a small view
+  { rgb8_image_t img(3, 4); auto tv = transposed_view(view(img)); auto rv = rotated90cw_view(view(img)); gray8_image_t g(5, 3); auto sv = subsampled_view(view(g), 2, 1);
+    auto chk = [&](auto const& vw, const char* what) { for (int y1 = 0; y1 < vw.height(); y1++) for (int x1 = 0; x1 < vw.width(); x1++) for (int y2 = 0; y2 < vw.height(); y2++) for (int x2 = 0; x2 < vw.width(); x2++) {
+        auto l1 = vw.xy_at(x1, y1), l2 = vw.xy_at(x2, y2); std::ptrdiff_t got = l1.y_distance_to(l2, x2 - x1);
+        if (got != y2 - y1) REPRODUCED("%s: (%d,%d).y_distance_to((%d,%d), %d) = %td, expected %d", what, x1, y1, x2, y2, x2 - x1, got, y2 - y1); } };
+    chk(tv, "transposed_view(rgb8 3x4)"); chk(rv, "rotated90cw_view(rgb8 3x4)"); chk(sv, "subsampled_view(gray8 5x3, 2, 1)"); chk(view(img), "rgb8 3x4"); }
   NOT_REPRODUCED("locator paths agree at (%lld,%lld)", dx, dy); }
 '''
 
